@@ -24,3 +24,23 @@ package utils
 //@   invariant 0 <= i && i <= n && n <= len(a) && n <= len(b)
 //@   invariant all(k, 0, i, a[k] == b[k])
 //@   decreases n - i
+//
+// ErrorWriter / ErrorReader: sticky-error wrappers over encoding/binary.
+//@ func utils.NewErrorWriter -> w
+//@ props C11
+//@ ensures w != nil && ref(w) >= old(alloc) && w.buf == buf && w.err == nil
+//@ func utils.NewErrorReader -> e
+//@ props C11
+//@ ensures e != nil && ref(e) >= old(alloc) && e.r == r && e.err == nil
+//@ func (*utils.ErrorWriter).Error -> e
+//@ props C11
+//@ ensures e == w.err
+//@ func (*utils.ErrorReader).Error -> e
+//@ props C11
+//@ ensures e == r.err
+//@ func (*utils.ErrorWriter).Write
+//@ props C11
+//@ inline
+//@ func (*utils.ErrorReader).Read
+//@ props C11
+//@ inline
